@@ -82,8 +82,7 @@ func (x *Exec) binop(st *State, op token.Token, a, b *Val, xt types.Type, pos to
 			} else {
 				lt = x.ufApp("strlt", SBool, p, q)
 				le = tOr(lt, tEq(p, q))
-				x.assume(st, tNot(tAnd(lt, x.ufApp("strlt", SBool, q, p))))
-				x.assume(st, tImp(tEq(p, q), tNot(lt)))
+				x.axiomsOn["strlt"] = true
 				x.assume(st, tOr(lt, tEq(p, q), x.ufApp("strlt", SBool, q, p)))
 			}
 			switch op {
@@ -166,9 +165,8 @@ func (x *Exec) strConcat(st *State, p, q *Term) *Term {
 	if x.strTheory {
 		return mk("str.++", SStr, p, q)
 	}
-	r := x.ufApp("concat", SStr, p, q)
-	x.assume(st, tEq(x.strLen(r), tArith("+", x.strLen(p), x.strLen(q))))
-	return r
+	x.axiomsOn["concat"] = true
+	return x.ufApp("concat", SStr, p, q)
 }
 
 func (x *Exec) floatBinop(st *State, op token.Token, a, b *Val, pos token.Pos) *Val {
